@@ -539,6 +539,13 @@ func (env *Env) callExpr(e *Expr) (Val, error) {
 			return Val{}, fmt.Errorf("cast: unknown type %s", e.Args[1].Str)
 		}
 		return Val{K: VRef, T: x.T, Typ: types.NewPointer(t)}, nil
+	case "unboxStr":
+		// unboxStr(v): the string boxed in interface value v
+		if err := need(1); err != nil {
+			return Val{}, err
+		}
+		ufn := tr.declareFun("unbox/string", []string{"Int"}, "String")
+		return Val{K: VStr, T: "(" + ufn + " " + args[0].T + ")"}, nil
 	case "ifaceRef":
 		// ifaceRef(v): the pointer boxed in interface value v (axiomatised at MakeInterface sites)
 		if err := need(1); err != nil {
@@ -639,7 +646,10 @@ func (f *Frame) envAtWith(b *ssa.BasicBlock, st *State) *Env {
 		}
 		_ = i
 	}
-	// named allocs (address-taken locals): bind to their current content
+	// source-level names: header phis (merged value of a variable at a join) and, with ssa.GlobalDebug, DebugRefs of
+	// register values; walking the dominator chain from the entry down to b, the latest binding wins
+	f.bindDebugNames(env, b)
+	// variables that live in memory (address taken) are read from the current state and win over debug values
 	for _, ai := range f.allocL {
 		if ai.a == nil || ai.a.Comment == "" || ai.ref == "" {
 			continue
@@ -654,9 +664,6 @@ func (f *Frame) envAtWith(b *ssa.BasicBlock, st *State) *Env {
 		env.vars[ai.a.Comment] = f.tr.load(st, pt, ai.ref)
 		env.vars["addr_"+ai.a.Comment] = Val{K: VRef, T: ai.ref, Typ: ai.a.Type()}
 	}
-	// source-level names: header phis (merged value of a variable at a join) and, with ssa.GlobalDebug, DebugRefs of
-	// register values; walking the dominator chain from the entry down to b, the latest binding wins
-	f.bindDebugNames(env, b)
 	return env
 }
 
